@@ -101,8 +101,27 @@ def _every_iteration_passes(f: Func, loop: ast.While, nodes: List[ast.AST]) -> b
     tedge = next((s for s in tn.succ if s.kind == "true"), None)
     if tedge is None:
         return False
-    through = [q.node_for(f, n) for n in nodes]
-    return not cfg.reaches(tedge, tn, avoid=through, normal_only=True)
+    through = {id(q.node_for(f, n)) for n in nodes}
+    # only paths that stay inside the loop count as an iteration (leaving by break and coming back through an enclosing loop is a new entry)
+    inside = {id(x) for x in ast.walk(loop)}
+
+    def in_loop(n) -> bool:
+        a = n.ast if n.ast is not None else (n.owner.ast if getattr(n, "owner", None) is not None else None)
+        return a is not None and id(a) in inside
+    seen, todo = set(), [tedge]
+    while todo:
+        n = todo.pop()
+        if id(n) in seen or id(n) in through:
+            continue
+        seen.add(id(n))
+        for s_ in n.succ:
+            if s_.id in n.exc_succ:
+                continue
+            if s_ is tn:
+                return False
+            if in_loop(s_):
+                todo.append(s_)
+    return True
 
 
 def classify_while(ctx: Ctx, f: Func, loop: ast.While) -> Tuple[str, str]:
